@@ -123,6 +123,18 @@ def run(chk):
                     break
             m.weights = np.asarray(w)
             chk.count(1, key=("rescore-after-set-weights", C))
+        # samples stored in single / half precision: the score is that of the VALUES (the machine's parameters are not narrowed to the data's type)
+        if i % 5 == 3:
+            for dt_ in (np.float32, np.float16):
+                Xn_ = np.asarray(X, dtype=dt_)
+                if not np.all(np.isfinite(Xn_)):
+                    continue
+                got_n = np.asarray(m.log_likelihood(Xn_), dtype=float)
+                want_n = np.asarray(m.log_likelihood(Xn_.astype(np.float64)), dtype=float)
+                chk.count(1, key=("narrow float samples", np.dtype(dt_).name))
+                if not np.allclose(got_n, want_n, rtol=1e-12, atol=1e-12, equal_nan=True):
+                    chk.fail("log_likelihood of %s samples differs from that of the same values in float64 (largest difference %.3g)"
+                             % (np.dtype(dt_).name, float(np.nanmax(np.abs(got_n - want_n)))), {"entry": "log_likelihood(%s)" % np.dtype(dt_).name, "x": hexlist(Xn_.astype(float)), "shape": [C, D]})
         # the same values in other containers / memory layouts score identically
         if i % 5 == 1:
             for lname, Xl in gen.layouts(X):
